@@ -83,6 +83,14 @@ CLAIMED = {
                   'validated bit-for-bit against the hardware on every run.',
              note=TB + 'Partial: IEEE rounding of v/precision, val+-0.5 and code*precision (Model/SoftFloat.v) is validated by correspondence only; the half-step bound is proved in exact arithmetic.',
              design='6 C06', technique='Coq proof over executable model + bit-exact extracted-model/implementation correspondence'),
+ 'C10': dict(text='Theorems about the ISO-TP part of the node model for every payload 9..223: RTS announces size, ceil(size/7) packets and the PGN; a CTS from the destination sends exactly min(grant, remaining) reference packets '
+                  '(numbered from 1, 7 bytes, 0xFF padded), for ANY grant list 0..255 each packet exactly once; control frames from third stations change nothing; EndOfMsgAck/Abort/timeout end the session (exact expiry in both '
+                  'scheduler builds) and later transfers proceed; BAM packets at least 50 ms apart; the receiver answers RTS with CTS / Abort (too long, unknown, no slot), appends in-sequence packets, acknowledges and delivers '
+                  'exactly once with the embedded PGN; a gap frees the session and nothing of it is delivered; an abandoned session does not capture a later transfer; library-to-library transfer over a FIFO link delivers exactly '
+                  'the payload (tp_lib_to_lib, every length).  Tied to the C++ by correspondence on sessions with dropped/duplicated/reordered frames and by a library-to-library co-simulation of two C++ nodes.',
+             note=TB + 'Two defects found by refuted statements were repaired in /repo (b807027 foreign control frames, 7b28730 stale receive session); the statements are now proved positively.  Sizes outside 9..223 and the '
+                  'per-CTS limit byte of the RTS (ignored by the library) are outside the property.',
+             design='6 C10', technique='Coq proof over executable model + extracted-model/implementation correspondence'),
  'C02': dict(ready=False, text='rx_no_corruption: for every group-function reaction satisfying a frame contract, every clean node and EVERY operation list (any interleaving, any losses, any number of senders and slots, any clock), each '
                   'non-TP delivery is justified by an increasing run of arrived frames (one first frame, continuation frames with the same PGN/source/destination and consecutive sequence bytes, announced length reached exactly at '
                   'the last frame, payload/priority/addresses taken from them) and no frame justifies two deliveries; runs_are_sent ties such runs to ONE sent message unless 8 messages of the PGN were started in between; '
